@@ -56,6 +56,11 @@ class RuleResult:
         self.samples = []
         self.notes = []
         self.constructs = set()
+        self.deferred = []          # parts the rule could not analyse; fatal only if it found nothing else to report
+
+    def defer(self, msg):
+        """Record that one part of the rule could not be analysed, and go on with the other parts."""
+        self.deferred.append(msg)
 
     def ok(self, construct=None, sample=None, trivial=False, reason=False):
         self.instances += 1
